@@ -528,19 +528,26 @@ def conditions(tier: str) -> list[core.Cond]:
             for fx in sh3:
                 add(4, 2, bs, fx)
         for bs in (2, 3):
-            for fx in [{"l1": a, "r1": b, "l2": c, "r2": d} for a in (0, 1) for b in (0, 1) for c in (0, 1) for d in (0, 1, 2)]:
+            for fx in [{"l1": a, "r1": b, "l2": c, "r2": d} for a in (0, 1) for b in (0, 1) for c in (0, 1) for d in (0, 1, 2)
+                       if d <= b + 1]:   # restricted-growth: the third row can open trace 2 only if the second opened trace 1
                 add(5, 3, bs, fx)
     for bs in ((2,) if tier == "quick" else (1, 2, 5)):
         for k0 in (False, True):
             for k1 in (False, True):
                 conds.append(core.Cond(f"q4.store changes between two unique-graph runs, batch={bs} shard={int(k0)}{int(k1)}", HARNESS, "history",
                                        {"kind": "history", "batch": bs, "k0": k0, "k1": k1}, tmo))
+    conds.append(core.Cond("q4.one holder: save, clean, save later files, select (no buffer)", HARNESS, "history",
+                           {"kind": "history", "batch": 2, "same_holder": 1}, tmo))
+    h15 = os.path.join(core.VERIF, "harness", "c15.py")
+    for late in ((0, 2) if tier == "quick" else range(5)):
+        conds.append(core.Cond(f"q5.through otel_to_pv (per-span workflow names, cleaning, filtering, streaming), placement={late}", h15,
+                               "unique_driver", {"kind": "unique-driver", "buf": 1, "batch": 2, "late": late, "history": []}, tmo))
     conds.append(core.Cond("twin", HARNESS, "twin", {"n": 3, "T": 2, "batch": 2, "fix": {}}, tmo, expect_violation=True))
     return conds
 
 
 def _replay(res: core.CondResult) -> tuple[bool, str, str, dict[str, Any]]:
-    out = core.replay_call(HARNESS, "replay", res.args or [], res.cond.cfg)
+    out = core.replay_call(res.cond.module, "replay", res.args or [], res.cond.cfg)
     if "error" in out:
         return False, "replay-error", out["error"][-600:], {}
     return bool(out["violates"]), out["sig"], out["what"], {"replay_result": out}
@@ -554,6 +561,8 @@ def run(tier: str) -> int:
     nq1 = 3 if tier == "quick" else 4
     chk.bounds = {"q1": f"all pairs of tree skeletons with <= {nq1} nodes, labels arbitrary strings (unbounded, then < 16 chars)",
                   "q2": f"all stores of N = {4 if tier == 'quick' else 6} rows, any window",
+                  "q5": "the real otel_to_pv driver with find_unique_graphs on a data set whose spans carry different workflow names inside "
+                        "a trace: streamed jobs = one per distinct shape of the stored traces",
                   "q4": "two separate-process unique-graph runs on one store, the second ingesting other files with a 1-minute buffer; symbolic: "
                         "which traces of the first run survive the second run's cleaning",
                   "q3": "quick: 3 rows over <=2 traces x batch 1,2,5 and 4 rows over <=2 traces x batch 2; thorough: 4 rows x batch 1,2,3,7 and "
@@ -608,6 +617,6 @@ def replay_file(path: str) -> int:
         v, what = replay_groups(rec["rows"])
         print(what)
         return 1 if v else 0
-    out = core.replay_call(HARNESS, "replay", rec["args"], rec["cfg"])
+    out = core.replay_call(os.path.join(core.VERIF, rec.get("module", "harness/c09.py")), "replay", rec["args"], rec["cfg"])
     print(json.dumps(out, indent=1))
     return 1 if out.get("violates") else 0
